@@ -334,6 +334,8 @@ def rule_r4(ctx: Ctx) -> None:
                     got = r.result
                 want_v = raw - 2**n if (signed and raw >= 2 ** (n - 1)) else raw
                 ctx.count()
+                if isinstance(got, Abstract):
+                    raise AnalysisError("_deserialize_primitive[%s]: the decoded value %r cannot be evaluated for the raw value %d" % (t.name, got, raw))
                 if r.raised or _w(r.events, "r") != [("BITS", n)] or got != want_v:
                     bad.append({"type": t.name, "raw": raw, "found": r.raised or got, "expected": want_v})
     ctx.check(not bad, SD + "._deserialize_primitive[integers]", "raw -> value on a boundary grid", "unsigned integers are returned as read; signed integers are decoded from two's complement", rwhere, bad[:4])
